@@ -1,4 +1,4 @@
-\* quick: all five kinds; every ordered pair of accepted URIs over
+\* quick: all six kinds; every ordered pair of accepted URIs over
 \*   rsync: hosts {h.test, g.test} x {lower, Mixed} x module {m, n}
 \*   https: hosts {h.test, "..", ""} x case x port
 \*   paths: <= 2 segments over {a, A, ""(trailing slash)}
@@ -6,7 +6,7 @@
 SPECIFICATION Spec
 CONSTANTS
   Variant = "intended"
-  Kinds = {"mft", "mftn", "ta", "tah", "notify"}
+  Kinds = {"mft", "mftn", "ta", "tah", "notify", "notify1"}
   Mode = "all"
   HostsR = {"h.test", "g.test"}
   HostsH = {"h.test", "..", ""}
